@@ -87,7 +87,7 @@ Hypothesis Hnew : snew >= i_now ins /\ snew >= zt_release t0.
 Lemma truth_placed5 : forall id, truth a5 (VPlaced id) = false.
 Proof. reflexivity. Qed.
 Lemma bits5 : forall t, worker_bits ins a5 t = 0.
-Proof. intros t. unfold worker_bits. cbn. apply Z.mod_0_l. pose proof (Z.pow_nonneg 2 (nworkers ins)). destruct (Z.eq_dec (2 ^ nworkers ins) 0); [|assumption]. rewrite e. reflexivity. Qed.
+Proof. intros t. unfold worker_bits. change (a5 (VWorker (zt_id t))) with 0. apply Zmod_0_l. Qed.
 
 Lemma start5 : forall t, In t (i_tasks ins) -> t_start a5 t = if zt_id t =? tid then snew else t_start a t.
 Proof. reflexivity. Qed.
@@ -137,9 +137,10 @@ Proof.
         -- cbn [fold_right] in Hre. destruct (fold_right _ (Ok []) l) as [rows0|c] eqn:Ef; cbn [bind] in Hre; [|discriminate].
            destruct (rsize ins r0) as [size|]; [|discriminate]. destruct (req w t r0) as [need|]; [|discriminate].
            inversion Hre; subst rws; clear Hre. destruct Hfin as [<-|Hfin]; [|eapply IH; eauto].
+           assert (Hx : feval a5 (o_bv_eq_int (ops ins) (worker_bv ins t) (2 ^ k)) = false).
+           { rewrite feval_bv_eq_int, bits5, Hmod. pose proof (pow2_pos k ltac:(lia)). lia. }
            change (feval a5 (FImp ?x ?y)) with (implb (feval a5 x) (feval a5 y)).
-           rewrite feval_bv_eq_int, bits5, Hmod. pose proof (pow2_pos k ltac:(lia)).
-           replace (0 =? 2 ^ k) with false by lia. reflexivity.
+           match goal with |- implb ?x ?y = true => replace x with false by (symmetry; exact Hx) end. reflexivity.
       * inversion Hre; subst rws. destruct Hfin as [<-|[]]. cbn [feval]. rewrite truth_placed5. reflexivity.
   - destruct Hf as [<-|[]]. cbn [feval]. rewrite truth_placed5. reflexivity.
 Qed.
@@ -185,13 +186,17 @@ Proof.
 Qed.
 
 (* ---- objective rows *)
+Lemma ieval_add : forall b l, ieval b (IAdd l) = fold_right (fun x acc => ieval b x + acc) 0 l.
+Proof. intros b l. cbn [ieval]. induction l as [|x l IH]; cbn [fold_right]; [reflexivity|]. now rewrite IH. Qed.
 Lemma ieval_goal_ext : forall l,
   ieval a5 (isum (map (fun t => IIte (VPlaced (zt_id t)) (IVar (VSlack (zt_graph t))) (IVar VPenalty)) l)) =
   ieval a4 (isum (map (fun t => IIte (VPlaced (zt_id t)) (IVar (VSlack (zt_graph t))) (IVar VPenalty)) l)).
 Proof.
-  intros l. destruct l as [|t l]; [reflexivity|]. unfold isum. cbn [map].
-  change (ieval ?b (IAdd ?x)) with ((fix go (l0 : list iexp) : Z := match l0 with [] => 0 | x0 :: l' => ieval b x0 + go l' end) x).
-  generalize (t :: l). intros l0. induction l0 as [|x l0 IH]; [reflexivity|]. cbn [map]. rewrite IH. reflexivity.
+  intros l. destruct l as [|t l]; [reflexivity|]. unfold isum. cbn [map]. rewrite !ieval_add.
+  change (IIte (VPlaced (zt_id t)) (IVar (VSlack (zt_graph t))) (IVar VPenalty) ::
+          map (fun t1 => IIte (VPlaced (zt_id t1)) (IVar (VSlack (zt_graph t1))) (IVar VPenalty)) l)
+    with (map (fun t1 => IIte (VPlaced (zt_id t1)) (IVar (VSlack (zt_graph t1))) (IVar VPenalty)) (t :: l)).
+  generalize (t :: l). intros l0. induction l0 as [|x l0 IH]; [reflexivity|]. cbn [map fold_right]. rewrite IH. reflexivity.
 Qed.
 
 Lemma objective_sat5 : forall f, In f (objective_rows ins) -> (forall g, In g (objective_rows ins) -> feval a g = true) -> feval a5 f = true.
@@ -231,3 +236,80 @@ Proof.
         apply in_or_app; right. apply in_or_app; right. apply in_or_app; right. exact Hg.
 Qed.
 End Unplace.
+
+(* ---------------------------------------------------------------- soft rows under enforce_deadlines *)
+Definition pen (ins : instance) (b : asg) (t : ztask) : Z :=
+  if any_compatible ins t then (if meets_deadline b t then 0 else 1) else 0.
+Lemma pen_fold_app : forall b (x y : list (bexp * Z)),
+  fold_right (fun p acc => (if feval b (fst p) then 0 else snd p) + acc) 0 (x ++ y) =
+  fold_right (fun p acc => (if feval b (fst p) then 0 else snd p) + acc) 0 x +
+  fold_right (fun p acc => (if feval b (fst p) then 0 else snd p) + acc) 0 y.
+Proof. intros b x y. induction x as [|p x IH]; cbn [app fold_right]; [lia|]. rewrite IH. lia. Qed.
+Lemma soft_penalty_enforce : forall ins b, i_enforce ins = true ->
+  soft_penalty ins b = fold_right (fun t acc => pen ins b t + acc) 0 (i_tasks ins).
+Proof.
+  intros ins b He. unfold soft_penalty, soft_z3. rewrite He. induction (i_tasks ins) as [|t l IH]; [reflexivity|].
+  cbn [flat_map]. rewrite pen_fold_app, IH. cbn [fold_right]. f_equal.
+  unfold pen. destruct (any_compatible ins t); [|reflexivity].
+  unfold soft_rows. cbn [fold_right fst snd].
+  assert (Hd : feval b (o_le (ops ins) (o_add_const (ops ins) (o_start_time (ops ins) t) (o_remaining_us (ops ins) t))
+                                (o_const (ops ins) (o_deadline_us (ops ins) t))) = meets_deadline b t).
+  { cbn [o_le o_add_const o_start_time o_remaining_us o_const o_deadline_us ops feval ieval]. unfold meets_deadline. f_equal. lia. }
+  rewrite Hd. destruct (meets_deadline b t); reflexivity.
+Qed.
+Lemma sum_lt : forall (f g : ztask -> Z) l, (forall x, In x l -> f x <= g x) -> (exists x, In x l /\ f x < g x) ->
+  fold_right (fun t acc => f t + acc) 0 l < fold_right (fun t acc => g t + acc) 0 l.
+Proof.
+  intros f g l. induction l as [|y l IH]; intros Hle (x & Hin & Hlt); [contradiction|]. cbn [fold_right].
+  assert (Hrest : fold_right (fun t acc => f t + acc) 0 l <= fold_right (fun t acc => g t + acc) 0 l).
+  { clear IH Hin Hlt. induction l as [|z l IHl]; cbn [fold_right]; [lia|].
+    pose proof (Hle z (or_intror (or_introl eq_refl))).
+    assert (fold_right (fun t acc => f t + acc) 0 l <= fold_right (fun t acc => g t + acc) 0 l).
+    { apply IHl. intros w [->|Hw]; apply Hle; [now left|right; now right]. }
+    lia. }
+  destruct Hin as [->|Hin].
+  - lia.
+  - pose proof (Hle y (or_introl eq_refl)).
+    assert (fold_right (fun t acc => f t + acc) 0 l < fold_right (fun t acc => g t + acc) 0 l).
+    { apply IH; [intros w Hw; apply Hle; now right|now exists x]. }
+    lia.
+Qed.
+
+(* the optimum under enforce_deadlines: every task that has a compatible worker and can meet its
+   deadline at all has a start variable that meets it; in particular a placed task misses its
+   deadline only if it is hopeless *)
+Theorem c12_z3_optimum : forall ins fs a, gen_z3 ins = Ok fs -> i_enforce ins = true -> NoDup (map zt_id (i_tasks ins)) ->
+  soft_optimal ins fs a ->
+  forall t, In t (i_tasks ins) -> any_compatible ins t = true -> hopeless ins t = false -> meets_deadline a t = true.
+Proof.
+  intros ins fs a Hg He Hnd [Hs Hopt] t Ht Hc Hh.
+  destruct (meets_deadline a t) eqn:Hm; [reflexivity|exfalso].
+  set (snew := Z.max (i_now ins) (zt_release t)).
+  assert (Hs' : sat fs (a5 ins a (zt_id t) snew) = true).
+  { eapply unplaced_sat with (t0 := t); eauto. unfold snew. lia. }
+  specialize (Hopt _ Hs'). rewrite !soft_penalty_enforce in Hopt by exact He.
+  assert (Hlt : fold_right (fun t1 acc => pen ins (a5 ins a (zt_id t) snew) t1 + acc) 0 (i_tasks ins) <
+                fold_right (fun t1 acc => pen ins a t1 + acc) 0 (i_tasks ins)).
+  { apply sum_lt.
+    - intros x Hx. unfold pen. destruct (any_compatible ins x); [|lia]. unfold meets_deadline.
+      change (a5 ins a (zt_id t) snew (VStart (zt_id x))) with (if zt_id x =? zt_id t then snew else a (VStart (zt_id x))).
+      destruct (zt_id x =? zt_id t) eqn:E.
+      + apply Z.eqb_eq in E. assert (x = t).
+        { pose proof (find_task_nodup _ _ Hnd Hx) as H1. pose proof (find_task_nodup _ _ Hnd Ht) as H2. rewrite E in H1. congruence. }
+        subst x. unfold hopeless in Hh. fold snew in Hh. replace (snew + zt_remaining t <=? zt_deadline t) with true by lia.
+        destruct (a (VStart (zt_id t)) + zt_remaining t <=? zt_deadline t); lia.
+      + lia.
+    - exists t. split; [exact Ht|]. unfold pen. rewrite Hc, Hm. unfold meets_deadline.
+      change (a5 ins a (zt_id t) snew (VStart (zt_id t))) with (if zt_id t =? zt_id t then snew else a (VStart (zt_id t))).
+      rewrite Z.eqb_refl. unfold hopeless in Hh. fold snew in Hh. replace (snew + zt_remaining t <=? zt_deadline t) with true by lia. lia. }
+  lia.
+Qed.
+
+Corollary c12_z3_placed_meets_or_hopeless : forall ins fs a, gen_z3 ins = Ok fs -> i_enforce ins = true ->
+  NoDup (map zt_id (i_tasks ins)) -> soft_optimal ins fs a -> c12_ok ins a = true.
+Proof.
+  intros ins fs a Hg He Hnd Hopt. unfold c12_ok. rewrite He. cbn [negb orb]. apply forallb_forall. intros t Ht.
+  destruct (truth a (VPlaced (zt_id t))) eqn:Hpl; [|reflexivity]. destruct (hopeless ins t) eqn:Hh; [reflexivity|]. cbn [negb andb implb].
+  destruct Hopt as [Hs Ho]. destruct (placed_facts _ _ _ _ Hg Hs Ht Hpl) as (Hc & _).
+  eapply c12_z3_optimum; eauto. split; assumption.
+Qed.
